@@ -75,6 +75,38 @@ Proof.
   all: exfalso; eapply H; reflexivity.
 Qed.
 
+(* A REFUSED handshake is such a policy failure, not a cut.  The server has answered
+   <proceed/> and the TLS handshake that follows fails (tls = false): because the server
+   refuses it with an alert (no protocol version or cipher suite in common with what the
+   application allows, a client certificate demanded) or because the client refuses the
+   server's certificate (other name, unknown authority, out of date).  Cleartext not being
+   allowed, the attempt is permanent and does not count as a failure to be retried --
+   whatever comes after <proceed/> in the script, also the end of the connection (a party
+   that refuses a handshake closes the connection, which does not turn the refusal into a
+   lost connection). *)
+Theorem C13_refused_handshake_permanent : forall cfg p id f r,
+  c_insecure cfg = false -> f_tls f <> TlsNone ->
+  attempt_of (res (connect cfg true false p (SHeader id :: SFeatures f :: SProceed :: r))) = AFailPermanent /\
+  is_fail AFailPermanent = false.
+Proof.
+  intros cfg p id f r Hi Ht. split; [|reflexivity].
+  unfold connect, res. cbn [negb read_header read_features read_proceed]. rewrite Hi.
+  destruct (f_tls f); [congruence| |]; reflexivity.
+Qed.
+
+(* ... and after it the retry loop has ended: no session is ever created again, whatever
+   the network and the server do next, until Stop makes Run return *)
+Theorem C13_refused_handshake_ends_retry_loop : forall cfg p id f r s es,
+  c_insecure cfg = false -> f_tls f <> TlsNone -> m_phase s = MRetry ->
+  let a := attempt_of (res (connect cfg true false p (SHeader id :: SFeatures f :: SProceed :: r))) in
+  let s' := m_run s (EAttempt a :: es) in
+  m_sessions s' = m_sessions s /\ m_post s' = m_post s /\ (m_phase s' = MDead \/ m_phase s' = MReturned).
+Proof.
+  intros cfg p id f r s es Hi Ht P. cbn zeta.
+  destruct (C13_refused_handshake_permanent cfg p id f r Hi Ht) as [-> _].
+  exact (permanent_stops s es P).
+Qed.
+
 (* ... and a connection that is cut in the middle of the negotiation is not: after the
    server's stream header and before its features; or, TLS being mandatory, after the
    client's <starttls/> and before <proceed/>.  The retry loop goes on (is_fail). *)
@@ -117,5 +149,7 @@ Print Assumptions C13_permanent_stops.
 Print Assumptions C13_stop_returns.
 Print Assumptions C13_dial_refused_transient.
 Print Assumptions C13_tls_policy_permanent.
+Print Assumptions C13_refused_handshake_permanent.
+Print Assumptions C13_refused_handshake_ends_retry_loop.
 Print Assumptions C13_cut_in_negotiation_transient.
 Print Assumptions C13_rejected_credentials_permanent.
